@@ -59,7 +59,16 @@ def judge(ctx, q, data, oob, info):
     hostile = any(f.startswith("selector:") for f in info.get("features", [])) or info.get("directed")
     witness = {"query": astx.unparse(q), "oob": oob, "info": info}
     try:
-        out = simplify_chained_calls().visit(astx.clone(q))
+        # (every third case: ONE simplifier object is used for query after query, as a back end that keeps its transformer does)
+        import threading as _thr
+
+        _keep = _thr.current_thread().__dict__.setdefault("_verif_kept_simplifier", {})
+        if ctx.evaluations % 3 == 1:
+            _simp = _keep.setdefault("s", simplify_chained_calls())
+            ctx.count("cases-simplified-by-a-reused-simplifier-object")
+        else:
+            _simp = simplify_chained_calls()
+        out = _simp.visit(astx.clone(q))
     except FuncADLIndexError as e:
         ctx.case(key, nontrivial=True)
         ctx.count("outcome:FuncADLIndexError")
